@@ -22,7 +22,7 @@ Proof. exact calc_length_additive. Qed.
 Theorem C04_literals : forall (def : Z) (neg : bool) (ds r : list Z),
   ds <> [] -> forallb digit_ok ds = true -> after_num_ok r ->
   get_int def ((if neg then [45] else []) ++ map dg ds ++ r)
-  = ((if neg then -1 else 1) * value_of 0 ds, r).
+  = ((if neg then -1 else 1) * numeral ds, r).
 Proof. exact get_int_numeral. Qed.
 
 (* non-vacuity: "%10^4.+8.." is a well-formed expression, and the theorem computes on it *)
